@@ -572,6 +572,22 @@ implicit-std = false
     }
 
     #[test]
+    fn test_pinned_from_str_malformed_is_err() {
+        for s in [
+            "",
+            "foo",
+            "git+foo",
+            "git+https://github.com/fuellabs/sway",
+            "registry+abc",
+            "registry+abc?0.0.1",
+            "path+from-root-",
+            "ipfs+x",
+        ] {
+            assert!(Pinned::from_str(s).is_err(), "{s:?} should fail to parse");
+        }
+    }
+
+    #[test]
     fn test_registry_patch_flat_namespace() {
         // Create a registry source with flat namespace
         let source = Source::Registry(reg::Source {
